@@ -9,7 +9,8 @@ wt = f"/var/tmp/osv/mut-{sid}"
 subprocess.run(["git", "-C", "/repo", "worktree", "remove", "--force", wt], capture_output=True)
 subprocess.run(["git", "-C", "/repo", "worktree", "add", "--detach", wt, "HEAD"], check=True, capture_output=True)
 try:
-    subprocess.run(["git", "-C", wt, "apply", os.path.join(d, "patch.diff")], check=True)
+    if subprocess.run(["git", "-C", wt, "apply", os.path.join(d, "patch.diff")]).returncode != 0:
+        subprocess.run(["git", "-C", wt, "apply", "--3way", os.path.join(d, "patch.diff")], check=True)
     t0 = time.time()
     env = dict(os.environ, OSVERIF_REPO=wt, VERIF_SEED=os.environ.get("VERIF_SEED", "0"))
     p = subprocess.run(["/verif/check", pid, "--tier", tier], env=env, capture_output=True, text=True, cwd="/verif")
